@@ -86,6 +86,9 @@ pub fn check_edit(rep: &mut Report, model: &mut Model, cfg: &Cfg, ops: &[Op], b:
     }
     if with_model {
         for (auth, rec) in [(true, &ra), (false, &ru)] {
+            // unauthenticated mode hands CORRUPTED bytes to the brotli decoder: what the real loop gets out of a
+            // failing decoder call is not what the reference decode reports (known finding D24) — no exact prediction there
+            if cfg.layers & L_COMP != 0 && (!auth || chunk == 0) { continue; } // chunk 0 is never authenticated (D15): same situation
             if let Some(pred) = model_predict(model, &bad, cfg, auth) {
                 rep.traces_validated += 1;
                 match pred {
